@@ -81,24 +81,24 @@ func (c *Ctx) Violations() []Violation { return c.viol }
 func (c *Ctx) Known(sig string) bool { return c.known[sig] }
 
 type fragment struct {
-	Property    string         `json:"property"`
-	Test        string         `json:"test"`
-	Level       string         `json:"level"`
-	Rule        string         `json:"rule"`
-	Assumptions []string       `json:"assumptions"`
-	Cases       int            `json:"cases"`
-	NTCases     int            `json:"nt_cases"`
-	NTHashes    []string       `json:"nt_hashes"`
-	NTCapped    bool           `json:"nt_capped"`
-	Classes     map[string]int `json:"classes"`
-	Counters    map[string]int `json:"counters"`
-	Samples     []any          `json:"samples"`
-	Known       map[string]int `json:"known"`
+	Property    string            `json:"property"`
+	Test        string            `json:"test"`
+	Level       string            `json:"level"`
+	Rule        string            `json:"rule"`
+	Assumptions []string          `json:"assumptions"`
+	Cases       int               `json:"cases"`
+	NTCases     int               `json:"nt_cases"`
+	NTHashes    []string          `json:"nt_hashes"`
+	NTCapped    bool              `json:"nt_capped"`
+	Classes     map[string]int    `json:"classes"`
+	Counters    map[string]int    `json:"counters"`
+	Samples     []any             `json:"samples"`
+	Known       map[string]int    `json:"known"`
 	KnownWhat   map[string]string `json:"known_what"`
-	Violations  []replayFile   `json:"violations"`
-	WallS       float64        `json:"wall_s"`
-	Seed        string         `json:"rapid_seed"`
-	Exhaustive  bool           `json:"exhaustive,omitempty"`
+	Violations  []replayFile      `json:"violations"`
+	WallS       float64           `json:"wall_s"`
+	Seed        string            `json:"rapid_seed"`
+	Exhaustive  bool              `json:"exhaustive,omitempty"`
 }
 
 type replayFile struct {
@@ -135,12 +135,12 @@ type Prop[S any] struct {
 const ntCap = 150000
 
 type recorder struct {
-	mu   sync.Mutex
-	frag fragment
-	nt   map[uint64]struct{}
-	best map[string]int // signature -> size of smallest replay so far
-	out  string
-	know map[string]knownFinding
+	mu        sync.Mutex
+	frag      fragment
+	nt        map[uint64]struct{}
+	best      map[string]int // signature -> size of smallest replay so far
+	out       string
+	know      map[string]knownFinding
 	ntSamples int
 }
 
